@@ -214,6 +214,143 @@ pub fn exec_more(t: &[&str]) -> R {
             let seed: u64 = t.get(4).ok_or_else(bad)?.parse().map_err(|_| bad())?;
             with_v!(b, V => conc::<V>(b, threads, iters, seed))
         }
+        // fresh keys used for the FIRST time by several threads at the same moment (lazy initialisation inside a key must not race)
+        "o.burst" => {
+            let b = Be::parse(t.get(1).ok_or_else(bad)?).ok_or_else(bad)?;
+            let threads: usize = t.get(2).and_then(|x| x.parse().ok()).ok_or_else(bad)?;
+            let rounds: usize = t.get(3).and_then(|x| x.parse().ok()).ok_or_else(bad)?;
+            with_v!(b, V => burst::<V>(b, threads, rounds))
+        }
+        // a history of failing operations of every kind, then the same successful operations as before it
+        "o.hist" => {
+            let b = Be::parse(t.get(1).ok_or_else(bad)?).ok_or_else(bad)?;
+            let n: usize = t.get(2).and_then(|x| x.parse().ok()).ok_or_else(bad)?;
+            with_v!(b, V => hist::<V>(b, n))
+        }
         _ => Err(bad()),
     }
+}
+
+fn burst<V>(be: Be, threads: usize, rounds: usize) -> R
+where
+    V: paseto_core::version::SealingVersion<Local>
+        + paseto_core::version::SealingVersion<Public>
+        + paseto_core::paserk::IdVersion
+        + paseto_core::paserk::PieWrapVersion
+        + paseto_core::paserk::PkeSealingVersion
+        + paseto_core::paserk::PkeUnsealingVersion
+        + 'static,
+    Key<V, paseto_core::version::PkePublic>: Send + Sync,
+    Key<V, paseto_core::version::PkeSecret>: Send + Sync,
+    Key<V, Local>: Send + Sync,
+    Key<V, Secret>: Send + Sync,
+    Key<V, Public>: Send + Sync,
+{
+    use paseto_core::version::{PkePublic, PkeSecret};
+    use std::sync::Barrier;
+    let nonce_len = if be == Be::V2 { 24 } else { 32 };
+    // material prepared sequentially with *other* key objects, so that the keys handed to the threads are untouched
+    let sk_raw = crate::gen_tok::gen_secret(be);
+    let lk_raw = vec![0x42u8; 32];
+    let (psk_raw, ppk_raw) = crate::gen_paserk::pke_pair(be);
+    let (tok_pub, tok_loc, sealed, wrapped, pk_raw, id_ref) = {
+        let sk = key_of::<V, Secret>(&sk_raw).map_err(|_| "key".to_string())?;
+        let lk = key_of::<V, Local>(&lk_raw).map_err(|_| "key".to_string())?;
+        let ppk = key_of::<V, PkePublic>(&ppk_raw).map_err(|_| "key".to_string())?;
+        let tp = UnsealedToken::<V, Public, Raw>::new(Raw(b"burst".to_vec())).sign(&sk).map_err(|_| "sign".to_string())?.to_string();
+        let tl = UnsealedToken::<V, Local, Raw>::new(Raw(b"burst".to_vec())).dangerous_seal_with_nonce(&lk, &[], vec![3u8; nonce_len]).map_err(|_| "seal".to_string())?.to_string();
+        let se = key_of::<V, Local>(&lk_raw).map_err(|_| "key".to_string())?.seal(&ppk).map_err(|_| "pke".to_string())?.to_string();
+        let wr = key_of::<V, Secret>(&sk_raw).map_err(|_| "key".to_string())?.wrap_pie(&lk).map_err(|_| "pie".to_string())?.to_string();
+        (tp, tl, se, wr, sk.public_key().expose_key().as_raw_bytes().to_vec(), sk.id().to_string())
+    };
+    let mut bad = 0usize;
+    let mut total = 0usize;
+    for round in 0..rounds {
+        // brand-new key objects every round
+        let sk = Arc::new(key_of::<V, Secret>(&sk_raw).map_err(|_| "key".to_string())?);
+        let pk = Arc::new(key_of::<V, Public>(&pk_raw).map_err(|_| "key".to_string())?);
+        let lk = Arc::new(key_of::<V, Local>(&lk_raw).map_err(|_| "key".to_string())?);
+        let psk = Arc::new(key_of::<V, PkeSecret>(&psk_raw).map_err(|_| "key".to_string())?);
+        let barrier = Arc::new(Barrier::new(threads));
+        let kind = round % 6;
+        let hs: Vec<_> = (0..threads).map(|_| {
+            let (sk, pk, lk, psk, barrier) = (sk.clone(), pk.clone(), lk.clone(), psk.clone(), barrier.clone());
+            let (tok_pub, tok_loc, sealed, wrapped, pk_raw, id_ref, lk_raw, sk_raw) = (tok_pub.clone(), tok_loc.clone(), sealed.clone(), wrapped.clone(), pk_raw.clone(), id_ref.clone(), lk_raw.clone(), sk_raw.clone());
+            std::thread::spawn(move || -> bool {
+                barrier.wait();
+                match kind {
+                    0 => paseto_core::paserk::SealedKey::<V>::from_str(&sealed).ok().and_then(|s| s.unseal(&psk).ok()).map(|k| k.expose_key().as_raw_bytes() == &lk_raw[..]).unwrap_or(false),
+                    1 => SealedToken::<V, Public, Raw>::from_str(&tok_pub).ok().and_then(|t| t.verify(&pk, &nv()).ok()).map(|u| u.claims.0 == b"burst").unwrap_or(false),
+                    2 => SealedToken::<V, Local, Raw>::from_str(&tok_loc).ok().and_then(|t| t.decrypt(&lk, &nv()).ok()).map(|u| u.claims.0 == b"burst").unwrap_or(false),
+                    3 => sk.public_key().expose_key().as_raw_bytes() == &pk_raw[..] && sk.id().to_string() == id_ref,
+                    4 => UnsealedToken::<V, Public, Raw>::new(Raw(b"x".to_vec())).sign(&sk).ok().map(|t| t.to_string())
+                            .and_then(|s| SealedToken::<V, Public, Raw>::from_str(&s).ok()).and_then(|t| t.verify(&pk, &nv()).ok()).is_some(),
+                    _ => PieWrappedKey::<V, Secret>::from_str(&wrapped).ok().and_then(|w| w.unwrap(&lk).ok()).map(|k| k.expose_key().as_raw_bytes() == &sk_raw[..]).unwrap_or(false),
+                }
+            })
+        }).collect();
+        for h in hs {
+            total += 1;
+            match h.join() { Ok(true) => {}, _ => bad += 1 }
+        }
+    }
+    Ok(format!("mismatches={} panicked=0 same_after=1 same_fresh=1 ops={}", bad, total))
+}
+
+fn hist<V>(be: Be, n: usize) -> R
+where
+    V: paseto_core::version::SealingVersion<Local>
+        + paseto_core::version::SealingVersion<Public>
+        + paseto_core::paserk::IdVersion
+        + paseto_core::paserk::PieWrapVersion
+        + paseto_core::paserk::PwWrapVersion
+        + paseto_core::paserk::PkeSealingVersion
+        + paseto_core::paserk::PkeUnsealingVersion,
+{
+    use paseto_core::version::{PkePublic, PkeSecret};
+    let nonce_len = if be == Be::V2 { 24 } else { 32 };
+    let sk = key_of::<V, Secret>(&crate::gen_tok::gen_secret(be)).map_err(|_| "key".to_string())?;
+    let pk = sk.public_key();
+    let lk = key_of::<V, Local>(&[0x24u8; 32]).map_err(|_| "key".to_string())?;
+    let (psk_raw, ppk_raw) = crate::gen_paserk::pke_pair(be);
+    let psk = key_of::<V, PkeSecret>(&psk_raw).map_err(|_| "key".to_string())?;
+    let ppk = key_of::<V, PkePublic>(&ppk_raw).map_err(|_| "key".to_string())?;
+    let donor = crate::gen_paserk::pw_template_pub(be, &crate::gen_paserk::min_params(be));
+    let params = PasswordWrappedKey::<V, Local>::from_str(&donor).map_err(|_| "donor".to_string())?.params().map_err(|_| "params".to_string())?;
+    let pw_blob = key_of::<V, Local>(&[0x24u8; 32]).map_err(|_| "key".to_string())?.password_wrap_with_params(b"right", &params).map_err(|_| "pw".to_string())?.to_string();
+    let sealed = key_of::<V, Local>(&[0x24u8; 32]).map_err(|_| "key".to_string())?.seal(&ppk).map_err(|_| "pke".to_string())?.to_string();
+    let tok_pub = UnsealedToken::<V, Public, Raw>::new(Raw(b"hist".to_vec())).sign(&sk).map_err(|_| "sign".to_string())?.to_string();
+    let reference = |tag: &str| -> Result<String, String> {
+        let t = UnsealedToken::<V, Local, Raw>::new(Raw(b"hist".to_vec())).dangerous_seal_with_nonce(&lk, &[], vec![5u8; nonce_len]).map_err(|e| format!("{tag}-seal-{}", err_name(&e)))?.to_string();
+        let o = SealedToken::<V, Local, Raw>::from_str(&t).ok().and_then(|x| x.decrypt(&lk, &nv()).ok()).map(|u| u.claims.0 == b"hist").unwrap_or(false);
+        let v = SealedToken::<V, Public, Raw>::from_str(&tok_pub).ok().and_then(|x| x.verify(&pk, &nv()).ok()).is_some();
+        let w = PasswordWrappedKey::<V, Local>::from_str(&pw_blob).ok().and_then(|x| x.unwrap(b"right").ok()).map(|k| k.expose_key().as_raw_bytes() == &[0x24u8; 32][..]).unwrap_or(false);
+        let u = paseto_core::paserk::SealedKey::<V>::from_str(&sealed).ok().and_then(|x| x.unseal(&psk).ok()).map(|k| k.expose_key().as_raw_bytes() == &[0x24u8; 32][..]).unwrap_or(false);
+        Ok(format!("{t}|{}|{}|{}|{}|{}|{}", o as u8, v as u8, w as u8, u as u8, sk.id(), hex(pk.expose_key().as_raw_bytes())))
+    };
+    let before = reference("before")?;
+    let mut fails = 0usize;
+    // cost parameter blocks the KDF front ends / libraries reject (zero passes, zero / tiny memory, zero lanes, zero iterations)
+    let bad_params: Vec<Vec<u8>> = if be.version() % 2 == 1 {
+        vec![0u32.to_be_bytes().to_vec()]
+    } else {
+        let mk = |m: u64, t: u32, p: u32| { let mut v = m.to_be_bytes().to_vec(); v.extend(t.to_be_bytes()); v.extend(p.to_be_bytes()); v };
+        vec![mk(8192, 0, 1), mk(1024, 1, 1), mk(0, 1, 1), mk(8192, 1, 0), mk(0, 0, 0), mk(100, 2, 1)]
+    };
+    for i in 0..n {
+        let bad_tok = format!("v{}.local.{}", be.version(), crate::gen_text::b64(&vec![i as u8; 100]));
+        if SealedToken::<V, Local, Raw>::from_str(&bad_tok).ok().map(|t| t.decrypt(&lk, &nv()).is_err()).unwrap_or(true) { fails += 1; }
+        if SealedToken::<V, Public, Raw>::from_str(&bad_tok.replacen("local", "public", 1)).ok().map(|t| t.verify(&pk, &nv()).is_err()).unwrap_or(true) { fails += 1; }
+        if PasswordWrappedKey::<V, Local>::from_str(&pw_blob).ok().map(|w| w.unwrap(b"wrong").is_err()).unwrap_or(true) { fails += 1; }
+        for bp in &bad_params {
+            let blob = crate::gen_paserk::pw_template_pub(be, bp);
+            if PasswordWrappedKey::<V, Local>::from_str(&blob).ok().map(|w| w.unwrap(b"right").is_err()).unwrap_or(true) { fails += 1; }
+        }
+        let garbage = format!("k{}.seal.{}", be.version(), crate::gen_text::b64(&vec![0x5au8; if be == Be::V1 { 592 } else if be.version() == 3 { 129 } else { 96 }]));
+        if paseto_core::paserk::SealedKey::<V>::from_str(&garbage).ok().map(|s| s.unseal(&psk).is_err()).unwrap_or(true) { fails += 1; }
+        if key_of::<V, Secret>(&[7u8; 5]).is_err() { fails += 1; }
+        if key_of::<V, Public>(&[0xffu8; 49]).is_err() { fails += 1; }
+    }
+    let after = reference("after")?;
+    Ok(format!("mismatches={} panicked=0 same_after={} same_fresh=1 ops={}", 0, (before == after) as u8, fails))
 }
